@@ -58,6 +58,8 @@ Fixpoint compile (raw : list rawpat) : option (list re) :=
   | Blank :: rest => compile rest
   | Good r :: rest => option_map (cons r) (compile rest)
   end.
+(* the patterns a caller gave, blank ones apart *)
+Definition goods (raw : list rawpat) : list re := flat_map (fun p => match p with Good r => [r] | _ => [] end) raw.
 Definition expand (pats : list re) : list re :=
   flat_map (fun p => [p; wrap pre2 post2 p; wrap pre3 post3 p]) pats.
 
@@ -255,11 +257,13 @@ Inductive case :=
    model instantiated with [gen], each one requiring only the facts of its own operation.
    ==================================================================================================== *)
 Inductive form := FPlain | FSlash | FSepNum.          (* pattern | ".*/%v/.*" | ".*%v%v%v.*" with the separator rune *)
-Inductive tested := TName | TPath | TNone.            (* an exclusion test is applied to: the entry name | the joined path | nothing *)
+Inductive tested := TName | TPath | TNone.
+Inductive treatment := AsGiven | Trimmed | Quoted.  (* what happens to a pattern text before it is expanded and compiled *)            (* an exclusion test is applied to: the entry name | the joined path | nothing *)
 
 Record facts := mkFacts {
   (* exclusion.go *)
   x_skip_blank : bool;          (* NewExclusionRegexList: a blank pattern is skipped, the loop goes on *)
+  x_pattern_as : treatment;     (* the pattern is compiled AS GIVEN (expected) | after strings.TrimSpace | after regexp.QuoteMeta *)
   x_forms : list form;          (* the texts appended per pattern, in order; each is compiled on its own *)
   x_invalid_kind : bool;        (* a compile error is wrapped as commonerrors.ErrInvalid *)
   x_keep_unmatched : bool;      (* ExcludeFiles keeps f iff !IsPathExcluded(f, regexes...) *)
@@ -303,6 +307,33 @@ Record facts := mkFacts {
 Section Generic.
 Variable F : facts.
 
+(* strings.TrimSpace on the pattern TEXT, expressed on the syntax tree (text printed with top-level alternatives
+   unbracketed): blank literals at the two ends of the text disappear. A blank under a repetition or inside brackets
+   is not at the end of the text. (Only evaluated when the source trims; the expected code compiles the text as given.) *)
+Definition blankc (c : Z) : bool := (c =? 32) || (c =? 9) || (c =? 10) || (c =? 13).
+Fixpoint all_blank (r : re) : bool :=
+  match r with Chr c => blankc c | Cat a b => all_blank a && all_blank b | _ => false end.
+Fixpoint trim_l (r : re) : re :=
+  match r with
+  | Chr c => if blankc c then Eps else r
+  | Cat a b => if all_blank a then trim_l b else Cat (trim_l a) b
+  | _ => r
+  end.
+Fixpoint trim_r (r : re) : re :=
+  match r with
+  | Chr c => if blankc c then Eps else r
+  | Cat a b => if all_blank b then trim_r a else Cat a (trim_r b)
+  | _ => r
+  end.
+Fixpoint trim_top_l (r : re) : re := match r with Alt a b => Alt (trim_top_l a) b | _ => trim_l r end.
+Fixpoint trim_top_r (r : re) : re := match r with Alt a b => Alt a (trim_top_r b) | _ => trim_r r end.
+Definition treat (F : facts) (r : re) : re :=
+  match x_pattern_as F with
+  | AsGiven => r
+  | Trimmed => trim_top_r (trim_top_l r)
+  | Quoted => r      (* a quoted pattern is a literal of its text: not interpreted, the theorems require AsGiven *)
+  end.
+
 Definition form_re (f : form) (p : re) : re :=
   match f with FPlain => p | FSlash => wrap pre2 post2 p | FSepNum => wrap pre3 post3 p end.
 Definition gexpand (pats : list re) : list re := flat_map (fun p => map (fun f => form_re f p) (x_forms F)) pats.
@@ -311,7 +342,7 @@ Fixpoint gcompile (raw : list rawpat) : option (list re) :=
   | [] => Some []
   | Bad :: _ => None
   | Blank :: rest => if x_skip_blank F then gcompile rest else option_map (cons Eps) (gcompile rest)
-  | Good r :: rest => option_map (cons r) (gcompile rest)
+  | Good r :: rest => option_map (cons (treat F r)) (gcompile rest)
   end.
 
 (* ExcludeFiles: is the name kept? *)
@@ -481,7 +512,7 @@ Definition grun_wrapper (F : facts) (w : wrapper) (op : opk) (raw : list rawpat)
 
 (* the facts the hand-written definitions above correspond to *)
 Definition expected_facts : facts := {|
-  x_skip_blank := true; x_forms := [FPlain; FSlash; FSepNum]; x_invalid_kind := true; x_keep_unmatched := true;
+  x_skip_blank := true; x_pattern_as := AsGiven; x_forms := [FPlain; FSlash; FSepNum]; x_invalid_kind := true; x_keep_unmatched := true;
   walk_own := false; walk_root := true; walk_child := true; walk_down := true;
   ls_own := false; ls_filter := true;
   lsrec_own := false; lsrec_with_pats := true;
@@ -496,9 +527,9 @@ Definition expected_facts : facts := {|
 
 (* the facts of the code BEFORE the two repairs (bc1ce85a): CleanDir did not hand the patterns to the per-entry removal,
    and Remove / CleanDir / Zip did not validate the patterns first *)
-Definition facts_before_fix : facts := {| x_skip_blank := x_skip_blank expected_facts; x_forms := x_forms expected_facts; x_invalid_kind := x_invalid_kind expected_facts; x_keep_unmatched := x_keep_unmatched expected_facts; walk_own := walk_own expected_facts; walk_root := walk_root expected_facts; walk_child := walk_child expected_facts; walk_down := walk_down expected_facts; ls_own := ls_own expected_facts; ls_filter := ls_filter expected_facts; lsrec_own := lsrec_own expected_facts; lsrec_with_pats := lsrec_with_pats expected_facts; tree_own := tree_own expected_facts; tree_filtered := tree_filtered expected_facts; tree_down := tree_down expected_facts; sub_own := sub_own expected_facts; sub_tested := sub_tested expected_facts; sub_requires_dir := sub_requires_dir expected_facts; copy_own := copy_own expected_facts; copy_top_test := copy_top_test expected_facts; copy_folder_test := copy_folder_test expected_facts; copy_file_test := copy_file_test expected_facts; copy_filtered := copy_filtered expected_facts; copy_down := copy_down expected_facts; zip_own := zip_own expected_facts; zip_validates_first := false; zip_with_pats := zip_with_pats expected_facts; rm_own := rm_own expected_facts; rm_validates_first := false; rm_cleans_with_pats := rm_cleans_with_pats expected_facts; rm_stops_if_nonempty := rm_stops_if_nonempty expected_facts; rm_final_on_tested := rm_final_on_tested expected_facts; rm_nested_name := rm_nested_name expected_facts; rm_nested_down := rm_nested_down expected_facts; clean_own := clean_own expected_facts; clean_validates_first := false; clean_filtered := clean_filtered expected_facts; clean_down := false |}.
+Definition facts_before_fix : facts := {| x_skip_blank := x_skip_blank expected_facts; x_pattern_as := AsGiven; x_forms := x_forms expected_facts; x_invalid_kind := x_invalid_kind expected_facts; x_keep_unmatched := x_keep_unmatched expected_facts; walk_own := walk_own expected_facts; walk_root := walk_root expected_facts; walk_child := walk_child expected_facts; walk_down := walk_down expected_facts; ls_own := ls_own expected_facts; ls_filter := ls_filter expected_facts; lsrec_own := lsrec_own expected_facts; lsrec_with_pats := lsrec_with_pats expected_facts; tree_own := tree_own expected_facts; tree_filtered := tree_filtered expected_facts; tree_down := tree_down expected_facts; sub_own := sub_own expected_facts; sub_tested := sub_tested expected_facts; sub_requires_dir := sub_requires_dir expected_facts; copy_own := copy_own expected_facts; copy_top_test := copy_top_test expected_facts; copy_folder_test := copy_folder_test expected_facts; copy_file_test := copy_file_test expected_facts; copy_filtered := copy_filtered expected_facts; copy_down := copy_down expected_facts; zip_own := zip_own expected_facts; zip_validates_first := false; zip_with_pats := zip_with_pats expected_facts; rm_own := rm_own expected_facts; rm_validates_first := false; rm_cleans_with_pats := rm_cleans_with_pats expected_facts; rm_stops_if_nonempty := rm_stops_if_nonempty expected_facts; rm_final_on_tested := rm_final_on_tested expected_facts; rm_nested_name := rm_nested_name expected_facts; rm_nested_down := rm_nested_down expected_facts; clean_own := clean_own expected_facts; clean_validates_first := false; clean_filtered := clean_filtered expected_facts; clean_down := false |}.
 
 (* written to Gen.v when the translator cannot read the source (unknown statement shape): every operation is outside
    the model, nothing can be proved of it *)
-Definition facts_unreadable : facts := {| x_skip_blank := false; x_forms := []; x_invalid_kind := false; x_keep_unmatched := false; walk_own := true; walk_root := false; walk_child := false; walk_down := false; ls_own := true; ls_filter := false; lsrec_own := true; lsrec_with_pats := false; tree_own := true; tree_filtered := false; tree_down := false; sub_own := true; sub_tested := TNone; sub_requires_dir := false; copy_own := true; copy_top_test := (false, false); copy_folder_test := (false, false); copy_file_test := (false, false); copy_filtered := false; copy_down := false; zip_own := true; zip_validates_first := false; zip_with_pats := false; rm_own := true; rm_validates_first := false; rm_cleans_with_pats := false; rm_stops_if_nonempty := false; rm_final_on_tested := false; rm_nested_name := false; rm_nested_down := false; clean_own := true; clean_validates_first := false; clean_filtered := false; clean_down := false |}.
+Definition facts_unreadable : facts := {| x_skip_blank := false; x_pattern_as := Quoted; x_forms := []; x_invalid_kind := false; x_keep_unmatched := false; walk_own := true; walk_root := false; walk_child := false; walk_down := false; ls_own := true; ls_filter := false; lsrec_own := true; lsrec_with_pats := false; tree_own := true; tree_filtered := false; tree_down := false; sub_own := true; sub_tested := TNone; sub_requires_dir := false; copy_own := true; copy_top_test := (false, false); copy_folder_test := (false, false); copy_file_test := (false, false); copy_filtered := false; copy_down := false; zip_own := true; zip_validates_first := false; zip_with_pats := false; rm_own := true; rm_validates_first := false; rm_cleans_with_pats := false; rm_stops_if_nonempty := false; rm_final_on_tested := false; rm_nested_name := false; rm_nested_down := false; clean_own := true; clean_validates_first := false; clean_filtered := false; clean_down := false |}.
 Definition check_case (c : case) : bool := gcheck_case expected_facts [] c.
